@@ -54,7 +54,7 @@ CHECKS = {
         design="DESIGN.md section 5/C15",
     ),
     "C06": dict(
-        text="Theorems for every table, dispatcher form and converter: convert_units fails as a whole or returns the same columns in order, each identical (untargeted / same unit / skipped special column under 'base') or holding exactly the converter's output with the requested unit (base: the reported unit); special columns are refused a different unit; any failing column fails the call. Correspondence on generated tables incl. permuted / non-default / string indexes, failure injection and pint; oracle compares row for row with the converter's own output and checks the original is untouched.",
+        text="Theorems for every table, dispatcher form and converter: convert_units fails as a whole or returns the same columns in order, each identical (untargeted / same unit / skipped special column under 'base') or holding exactly the converter's output with the requested unit (base: the reported unit); special columns are refused a different unit; any failing column fails the call. Correspondence on generated tables incl. permuted / non-default / string indexes, failure injection and pint; oracle compares row for row with the converter's own output and checks the original is untouched. The bulk form normalized_table_generator (pdtable/utils.py) is modelled as a stream function with its own theorem and is run on a four-block stream in every case.",
         note="Coq kernel + vm_compute; model Model/Convert.v; column values are opaque in the model, positional write-through of Column.values and data independence of the copy are checked by the oracle (and C05).",
         design="DESIGN.md section 5/C06",
     ),
